@@ -344,37 +344,62 @@ func runC14(c *Checker) {
 		}
 	}
 
+	// ---- CHUNK-1 (cont.): once a chunk has been handed over, Send fails only by way of the next
+	// hand-off: between a successful hand-off and the next one (or the success return) no error
+	// return is reachable. Otherwise Send can report a failure although the whole message - final
+	// chunk included - is on its way, and the permitted retry delivers it twice.
+	for _, h := range handoffs {
+		call, ok := h.call.(*ssa.Call)
+		if !ok {
+			continue
+		}
+		isOK := func(b *ssa.BasicBlock) bool {
+			return hasFact(b, func(f Fact) bool { return factRel(f, isValue(ssa.Value(call)), isNilConst) == "==" })
+		}
+		bad := ""
+		n := 0
+		for _, b := range send.Blocks {
+			if !isOK(b) || len(b.Instrs) == 0 {
+				continue
+			}
+			entry := false
+			for _, p := range b.Preds {
+				if !isOK(p) {
+					entry = true
+				}
+			}
+			if !entry {
+				continue
+			}
+			n++
+			allInstrs(send, func(in ssa.Instruction) {
+				ret, ok := in.(*ssa.Return)
+				if !ok || ret.Block().Comment == "recover" || bad != "" {
+					return
+				}
+				isErr := true
+				for _, v := range expandValuesAt(ret.Results[0], ret) {
+					if isNilConst(v) {
+						isErr = false
+					}
+				}
+				if isErr && pathFromBlockEntry(b, ret, func(x ssa.Instruction) bool { return x == ssa.Instruction(call) }) {
+					bad = w.pos(instrPos(ret))
+				}
+			})
+		}
+		if n == 0 {
+			continue // the pass-through form `return sendPacket(p)`
+		}
+		c.decide(bad == "", "CHUNK-1", "Send|no failure between a successful hand-off and the next one", instrPos(call), "after a successful hand-off the only ways on are the next hand-off and the success return",
+			"Send can return an error at "+bad+" right after a chunk was handed over successfully (a deadline re-check, say): if that chunk was the final one the peer receives the complete message although Send failed, and a retry delivers it a second time")
+	}
+
 	// ---- CHUNK-3 / CHUNK-4: Recv
 	checkRecvAccumulator(c, recv, fRecvChan, fFinal, fPayload)
 
 	// ---- CHUNK-4: pings never reach recvDataChan
-	rl := w.Func("(*gbn.GoBackNConn).receivePacketsForever")
-	if rl == nil {
-		c.anchorFail("receivePacketsForever")
-		return
-	}
-	allInstrs(rl, func(in ssa.Instruction) {
-		sel, ok := in.(*ssa.Select)
-		if !ok {
-			return
-		}
-		cases, _ := w.selectCases(sel)
-		for _, sc := range cases {
-			if !sc.IsSend || chanField(sc.Chan) != fRecvChan {
-				continue
-			}
-			notPing := false
-			for _, f := range factsAt(sel.Block()) {
-				if u, ok := f.Cond.(*ssa.UnOp); ok && u.Op == token.MUL && !f.Val {
-					if fa, ok := u.X.(*ssa.FieldAddr); ok && structFieldOf(fa) == fPing && fa.X == sc.SendV {
-						notPing = true
-					}
-				}
-			}
-			c.decide(notPing, "CHUNK-4", "receiveLoop|ping-not-delivered", instrPos(sel), "delivery is dominated by !IsPing of the delivered packet",
-				"a ping packet can be handed to Recv: the application sees an extra (empty) message or a broken boundary")
-		}
-	})
+	rulePingNotDelivered(c, "CHUNK-4")
 	c.floor("CHUNK-4", 3)
 	c.floor("CHUNK-3", 4)
 }
@@ -661,4 +686,41 @@ func checkRecvAccumulator(c *Checker, recv *ssa.Function, fRecvChan, fFinal, fPa
 	if nOK == 0 {
 		c.fail("CHUNK-4", "Recv|success-return", recv.Pos(), "no success return recognised in Recv")
 	}
+}
+
+// rulePingNotDelivered: a keepalive ping is consumed by the receive loop: every hand-over to
+// recvDataChan is dominated by !IsPing of the delivered packet. (Pings parked in the N-slot
+// channel of an application that is not in Recv block the receive loop after N pings, the peer's
+// pongs stop, and a healthy idle connection is closed by its own keepalive.)
+func rulePingNotDelivered(c *Checker, rule string) {
+	w := c.w
+	rl := w.Func("(*gbn.GoBackNConn).receivePacketsForever")
+	fRecvChan := w.Field("gbn.GoBackNConn.recvDataChan")
+	fPing := w.Field("gbn.PacketData.IsPing")
+	if rl == nil || fRecvChan == nil || fPing == nil {
+		c.anchorFail("receivePacketsForever / recvDataChan / PacketData.IsPing")
+		return
+	}
+	allInstrs(rl, func(in ssa.Instruction) {
+		sel, ok := in.(*ssa.Select)
+		if !ok {
+			return
+		}
+		cases, _ := w.selectCases(sel)
+		for _, sc := range cases {
+			if !sc.IsSend || chanField(sc.Chan) != fRecvChan {
+				continue
+			}
+			notPing := false
+			for _, f := range factsAt(sel.Block()) {
+				if u, ok := f.Cond.(*ssa.UnOp); ok && u.Op == token.MUL && !f.Val {
+					if fa, ok := u.X.(*ssa.FieldAddr); ok && structFieldOf(fa) == fPing && fa.X == sc.SendV {
+						notPing = true
+					}
+				}
+			}
+			c.decide(notPing, rule, "receiveLoop|ping-not-delivered", instrPos(sel), "delivery is dominated by !IsPing of the delivered packet",
+				"a ping packet can be handed to Recv: the application sees an extra (empty) message or a broken boundary, and on an idle connection the parked pings fill recvDataChan until the receive loop blocks and the peer's keepalive closes a healthy connection")
+		}
+	})
 }
